@@ -75,8 +75,9 @@ KindsMember == {Tx("add", 4, 0), Tx("revoke", 1, 0), Tx("revoke", 2, 0), Tx("rev
 KindsMemberQ == {Tx("add", 4, 0), Tx("revoke", 1, 0), Tx("revoke", 3, 0), Tx("mbp", 0, 2), Tx("mbp", 0, 3)}
 KindsEndorse == {Tx("thr", 0, 1), Tx("thr", 0, 2), Tx("out", 1, 0), Tx("in", 1, 0), Tx("out", 3, 0), Tx("in", 3, 0),
                  Tx("mbp", 0, 2), Tx("mbp", 0, 3)}
-KindsEndorseQ == {Tx("thr", 0, 1), Tx("thr", 0, 2), Tx("out", 1, 0), Tx("in", 3, 0), Tx("mbp", 0, 2)}
-KindsSibQ == {Tx("thr", 0, 2), Tx("out", 1, 0), Tx("in", 3, 0), Tx("revoke", 1, 0)}
+KindsEndorseQ == {Tx("thr", 0, 1), Tx("thr", 0, 2), Tx("out", 1, 0), Tx("in", 3, 0)}
+KindsSibQ == {Tx("out", 1, 0), Tx("in", 3, 0)}
+KindsSibM == {Tx("thr", 0, 2), Tx("out", 1, 0), Tx("in", 3, 0), Tx("revoke", 1, 0)}
 KindsSibT == {Tx("add", 4, 0), Tx("revoke", 1, 0), Tx("thr", 0, 2), Tx("out", 1, 0), Tx("in", 1, 0), Tx("mbp", 0, 2)}
 KindsMixed == KindsMember \cup KindsEndorse
 KindsStake == {Tx("sadd", 4, 0), Tx("swd", 4, 0), Tx("sinc", 1, 0), Tx("swd", 1, 0), Tx("sexit", 1, 0), Tx("sexit", 2, 0),
